@@ -37,6 +37,7 @@ struct Interp {
     // ---------------------------------------------------------------- (1) arbitrary file bytes
     void run_file(const Case &c) {
         enter();
+        ht_install();
         { struct rlimit rl = {32, 32}; setrlimit(RLIMIT_NOFILE, &rl); }   // a self-including file recurses until descriptors run out: keep that short
         { static char ebuf[1 << 16]; setvbuf(stderr, ebuf, _IOFBF, sizeof ebuf); }   // thousands of diagnostics: do not pay a syscall for each
         cf_names("vtapp", "1.2.3");
@@ -46,8 +47,12 @@ struct Interp {
         long nctx = 0, nbi = 0;
         for (auto &op : c) {
             if (op.name == "cfg") { magic = op.i(0) != 0; nctx = op.i(1); nbi = op.i(2); }
-            if (op.name == "ln") { std::string l = expand(op.s(0), op.i(0, 1)); body += l; if (op.i(1, 1)) body += "\n"; }
+            if (op.name == "ln") { std::string l = expand(op.s(0), op.i(0, 1)); if (op.strs.size() > 1) body += op.s(1); body += l; if (op.i(1, 1)) body += "\n"; }   // optional prefix, then the unit `count` times
             if (op.name == "selfinc") { body += "%include f.cfg\n"; self_include = true; }
+            if (op.name == "ftmp") {   // where temporary files go while this file is parsed: nowhere (creation fails), or a long path
+                if (op.i(0) == 1) { setenv("TMPDIR", "/nonexistent-dir/x", 1); ctx.label("tmpdir:unusable"); }
+                else if (op.i(0) == 2) { std::string t = dir + "/" + std::string(180, 't'); mkdir(t.c_str(), 0700); setenv("TMPDIR", t.c_str(), 1); ctx.label("tmpdir:long-path"); }
+            }
         }
         // a file that includes itself more than once makes the parser do 2^(descriptor limit) work (no cycle
         // detection): finite but out of reach, so only the first self-include is kept
@@ -70,8 +75,9 @@ struct Interp {
                   }
               }
           } }
-        for (long i = 0; i < nctx && i < 300; i++) { std::string n = "ctx" + std::to_string(i); LA(cf_register(n.c_str(), i < 31 ? (int)i : 99)); }
-        for (long i = 0; i < nbi && i < 300; i++) { std::string n = "bi" + std::to_string(i); LA(cf_register_builtin(n.c_str())); }
+        // context and built-in ids are unsigned char by the API: at most 250 / 240 per cycle (false alarms 19 and 24 in DESIGN 8.1)
+        for (long i = 0; i < nctx && i < 250; i++) { std::string n = "ctx" + std::to_string(i); LA(cf_register(n.c_str(), i < 31 ? (int)i : 99)); }
+        for (long i = 0; i < nbi && i < 240; i++) { std::string n = "bi" + std::to_string(i); LA(cf_register_builtin(n.c_str())); }
         if (nctx > 160) ctx.label(">160-registered-contexts");
         if (nbi >= 10) ctx.label(">=10-extra-built-ins");
         { std::ofstream o(dir + "/f.cfg", std::ios::binary); if (magic) o << kMagic; o << body; }
@@ -95,7 +101,14 @@ struct Interp {
         else ctx.label("text-may-spawn");
         if (cf_log_count() > 0 || cf_stack(0) > 0) ctx.nontrivial();
         cf_reset_log();
-        ctx.ok();   // heap balance is the lifecycle sub-check's business
+        // freeing releases everything the subsystem allocated, whatever the file contained
+        LA(cf_free());
+        if (!self_include && !ht_overflowed() && ht_live_count() != 0) {
+            char b[200];
+            ht_describe(b, sizeof b);
+            ctx.fail("leak", std::string("heap-not-balanced; blocks allocated while parsing are still live after spifconf_free_subsystem(): ") + b);
+        }
+        ctx.ok();
     }
     static bool strcasestr_bin(const std::string &h, const char *n) { size_t l = strlen(n); for (size_t i = 0; i + l <= h.size(); i++) if (!strncasecmp(h.data() + i, n, l)) return true; return false; }
 
@@ -138,6 +151,7 @@ struct Interp {
             VT_CHECK(ctx, got == want, "mismatch", "lookup; " << what << " returned \"" << printable(got, 60) << "\" expected \"" << printable(want, 60) << "\"");
             if (!want.empty()) ctx.label(want == name ? "lookup:hit-in-cwd/dir" : "lookup:hit-in-pathlist"); else ctx.label("lookup:miss");
             if (too_big) ctx.label("lookup:file+dir-over-PATH_MAX");
+            if (!dnull && (long)file.size() + (long)dirarg.size() >= PATH_MAX - 4 && (long)file.size() + (long)dirarg.size() <= PATH_MAX) ctx.label("lookup:file+dir-fills-the-name-buffer");
             if (path.size() > 32767) ctx.label("lookup:component>32767");
             if (path.size() > 65536) ctx.label("lookup:component>65536");
             if (path.find("::") != std::string::npos || (!path.empty() && path[0] == ':')) ctx.label("lookup:empty-component");
@@ -288,6 +302,10 @@ rc::Gen<Case> gen_file() {
             if (k == 1) return mk("ln", {*rc::gen::elementOf(std::vector<long>{159, 160, 161, 200, 255, 256, 300}), 0}, {std::string("begin main\n")});
             if (k == 2) return mk("ln", {*range(1, 40), 0}, {std::string("end\n")});
             if (k == 3) return mk("selfinc");
+            if (k == 4) return mk("ftmp", {*range(1, 2)});
+            // a backquote / %exec command whose length is within a temporary-file name of the line-buffer size
+            if (k == 5) return mk("ln", {*range(20380, 20476), 1}, {std::string("x"), std::string(*range(0, 1) ? "`" : "%exec(")});
+            if (k == 6) return mk("ln", {1, 1}, {std::string(*range(0, 1) ? "%preproc cat" : "%preproc tr a b")});
             return mk("ln", {*range(0, 19) == 0 ? *range(2, 50) : 1, *range(0, 14) ? 1 : 0}, {*gen_line_unit()});
         }));
         for (auto &l : lines) c.push_back(l);
@@ -313,6 +331,13 @@ rc::Gen<Case> gen_lookup() {
             for (long k = 0; k < ncomp; k++) { o.strs.push_back(*rc::gen::elementOf(comps)); if (*range(0, 5) == 0) o.ints[(size_t)(2 + k)] = *rc::gen::elementOf(reps); }
             o.ints[10] = *range(0, 3) == 0 ? 1 : 0;
             o.ints[11] = *range(0, 7) == 0 ? 1 : 0;
+            if (*range(0, 5) == 0) {
+                // dir + file together right at the size of the name buffer (PATH_MAX - 2 and its neighbours), with a search path to walk
+                long total = *range(PATH_MAX - 5, PATH_MAX + 2), k = *rc::gen::elementOf(std::vector<long>{1, 5, 255, 2000, total - 1});
+                o.strs[0] = "x"; o.strs[1] = "x"; o.ints[0] = std::max<long>(1, std::min(k, total - 1)); o.ints[1] = total - o.ints[0];
+                o.ints[10] = 0; o.ints[11] = 0;
+                if (o.strs.size() < 3) { o.strs.push_back("d2"); o.ints[2] = 1; }
+            }
             c.push_back(o);
         }
         return c;
